@@ -981,15 +981,23 @@ func init() {
 						}
 					}
 				}
+				// the goroutines of an attached session after its connection ended, for several logon histories
+				for role := 0; role <= 1; role++ {
+					for hist := 0; hist <= 3; hist++ {
+						j := J(sessPkg, "H_C13_session", role, hist)
+						j.EngineReplay = true
+						jobs = append(jobs, j)
+					}
+				}
 				return jobs
 			},
-			Explanation: "Partial, bounded. The complete connection plumbing - Initiator.Serve (conn.serve + reader goroutine, DefaultHandler.Run, writer loop, context watcher, forwarder, errgroup) Acceptor.serve, and Acceptor.ListenAndServe on an in-memory listener with one accepted connection (local Close, listener failure) - runs as interpreted goroutines on a scripted net.Conn whose Close unblocks a pending Read like a real socket. Termination causes: peer closes (EOF), read error, write error, local Initiator.Close / Acceptor.Close, handler.Stop, the peer stops reading (every Write times out); injected when nothing has been exchanged, after inbound messages were delivered, inside a partially read inbound message, with an outbound message just handed over (an application goroutine is inside SendRaw), and after an inbound frame without MsgType has ended the handler loop; channel buffer sizes 0 and 1. Schedules: the deterministic cooperative one, plus every schedule with at most 1 (thorough: 2) preemptions at channel/select/cancel/go switch points from the moment of the cause (three rotations of the run-queue order). Asserted on every schedule: every goroutine started by the library finishes (a goroutine blocked forever is detected by the engine as a deadlock), the serving call returns, the socket is closed, later SendRaw/Send calls return, the non-initiating side got a disconnect or stopped notification, no goroutine remains.",
+			Explanation: "Partial, bounded. The complete connection plumbing - Initiator.Serve (conn.serve + reader goroutine, DefaultHandler.Run, writer loop, context watcher, forwarder, errgroup) Acceptor.serve, and Acceptor.ListenAndServe on an in-memory listener with one accepted connection (local Close, listener failure) - runs as interpreted goroutines on a scripted net.Conn whose Close unblocks a pending Read like a real socket. Termination causes: peer closes (EOF), read error, write error, local Initiator.Close / Acceptor.Close, handler.Stop, the peer stops reading (every Write times out); injected when nothing has been exchanged, after inbound messages were delivered, inside a partially read inbound message, with an outbound message just handed over (an application goroutine is inside SendRaw), and after an inbound frame without MsgType has ended the handler loop; channel buffer sizes 0 and 1. Schedules: the deterministic cooperative one, plus every schedule with at most 1 (thorough: 2) preemptions at channel/select/cancel/go switch points from the moment of the cause (three rotations of the run-queue order). Asserted on every schedule: every goroutine started by the library finishes (a goroutine blocked forever is detected by the engine as a deadlock), the serving call returns, the socket is closed, later SendRaw/Send calls return, the non-initiating side got a disconnect or stopped notification, no goroutine remains. Session level (H_C13_session): after the handler of a connection is stopped, for the histories one logon / logout and second logon / local Stop answered and a further Logon / probe pending, every live timer expires at most once more and then no goroutine started by the session remains and nothing is handed to the outbound queue.",
 			Rule:        "case = (side, cause, point, buffer size, preemption bound, run-queue rotation) x schedule",
 			Bounds:      map[string]string{"quick": "6 causes x 5 points x buffers {0,1} x 2 sides; preemption bound <= 1 at coarse switch points (tens to hundreds of schedules per case)", "thorough": "preemption bound <= 2 (hundreds to thousands of schedules per case)"},
 			Assumptions: append(append([]string{}, commonAssumptions...),
 				"goroutines are interpreted with sequentially consistent interleaving; unbuffered channels have exact rendezvous semantics; a goroutine that spins on an always-ready select is descheduled periodically (fairness); in a polling loop only the first two visits of a program point are switch points",
 				"the scripted net.Conn stands for a socket: Read blocks until data/EOF/error/Close, Write never blocks (a peer that stops reading is outside the bound)"),
-			Outside:      "a session attached to the handler is covered only compositionally: its two timer goroutines leave at their next expiry once the handler context is cancelled (lemma H_C08_heartbeat / H_C09_probe with a stopped handler, under C08/C09), so the settling time includes up to N+max(1,N/20) seconds; the peer that stops reading (blocking Write until the deadline); more than one preemption (quick); preemption at mutex/atomic operations; several simultaneous connections being torn down together",
+			Outside:      "a session attached to the handler is covered by a separate step (H_C13_session: handler stopped, timers expire once more), not inside the schedule exploration of the plumbing; the settling time includes up to N+max(1,N/20) seconds; the peer that stops reading (blocking Write until the deadline); more than one preemption (quick); preemption at mutex/atomic operations; several simultaneous connections being torn down together",
 			Differential: 0,
 		}
 	})
